@@ -123,6 +123,7 @@ def main(args):
                             b_ = as_class(js, want, schema, inst)
                             e_ = outcome(js, lambda: js.validate(inst, schema, cls=js.Draft3Validator))
                             e2 = as_class(js, js.Draft3Validator, schema, inst)
+                            d3_says = e2
                             if len(classes) > 4:      # ... also when the explicitly given class is a later one
                                 e_ = (e_, outcome(js, lambda: js.validate(inst, schema, cls=classes[-1])))
                                 e2 = (e2, as_class(js, classes[-1], schema, inst))
@@ -142,6 +143,14 @@ def main(args):
                                     code = cli.run(cli.parse_args(["-i", ip, sp_path]), stdout=so, stderr=se)
                                 except Exception as e:  # noqa
                                     code = "crash: %s: %s" % (type(e).__name__, str(e)[:100])
+                                # ... and with an explicitly named class, which wins over whatever $schema says
+                                so3, se3 = io.StringIO(), io.StringIO()
+                                try:
+                                    code3 = cli.run(cli.parse_args(["-i", ip, "--validator", "Draft3Validator", sp_path]), stdout=so3, stderr=se3)
+                                except Exception as e:  # noqa
+                                    code3 = "crash: %s: %s" % (type(e).__name__, str(e)[:100])
+                            if d3_says[0] in ("valid", "invalid", "schemaerror") and (isinstance(code3, str) or (code3 == 0) != (d3_says[0] == "valid")):
+                                ck.violation("cli_explicit_class_does_not_win", dict(case, cli_exit=code3, explicit_class=d3_says, stderr=se3.getvalue()[:200]))
                             lib_ok = b_[0] == "valid"
                             if b_[0] in ("valid", "invalid", "schemaerror") and (isinstance(code, str) or (code == 0) != lib_ok):
                                 ck.violation("cli_differs_from_selected_class", dict(case, cli_exit=code, selected_class=b_, stderr=se.getvalue()[:200]))
